@@ -10,7 +10,8 @@ RULE = ("readers R in 1..3 (real threads running the real SharedDictDataset.__ge
         "programs of <= 2 accesses over indices {0,1} (forced to collide) with an optional clear at any position of any reader, "
         "payload types int / (bytes,int) / tensor / dict / list, post-cache transform none / pure / in-place; every schedule at "
         "shared-dict-operation granularity with preemption bound 0,1,2,... (unbounded where the count allows); sequential "
-        "histories (no concurrency, readers take turns): all sequences of (reader, op) with op in {get0, get1, clear, release = the "
+        "histories (no concurrency, readers take turns): all sequences of (reader, op) with op in {get0, get1, get(-1), [one reader: "
+        "get(-2), out-of-range get(2), get(-3)], clear, release = the "
         "reader object is garbage collected} of length <= 4 "
         "for 1 and 2 readers and <= 3 for 3 readers, with exact load accounting over all readers; readers are copies of ONE cache "
         "object (fork picture: private attributes duplicated, manager dicts shared), also with a wrapped dataset whose first load of "
@@ -106,10 +107,13 @@ class Base:
         return 2
 
     def __getitem__(self, i):
+        # a list-backed dataset: negative indices count from the end, anything outside [-len, len) raises
         self.loads.append(i)
+        if not -2 <= i < 2:
+            raise IndexError(i)
         if FLAKY[0] and self.loads.count(i) == 1:
             raise LoadError(i)
-        return payload(self.kind, i)
+        return payload(self.kind, i % 2)
 
 
 CURRENT = {"sched": None, "dicts": []}
@@ -249,7 +253,8 @@ def sequential_check(ops, kind, tkind, R=1):
     ops = [o if isinstance(o, tuple) else (0, o) for o in ops]
     with patched(None):
         readers = make_readers(R, kind, tkind)
-        cached = set()
+        cached = set()       # index values served since the last clear
+        cached_samples = set()  # the underlying samples behind them
         loads_done = {}
         for k, (who, op) in enumerate(ops):
             r = readers[who]
@@ -267,7 +272,17 @@ def sequential_check(ops, kind, tkind, R=1):
                 except Exception as e:
                     return f"clear_raised:{type(e).__name__}", f"ops {ops} step {k}: {e!r}"
                 cached = set()
+                cached_samples = set()
                 continue
+            if not -2 <= op < 2:
+                # outside the wrapped dataset: the cache must answer like the dataset (IndexError), and cache nothing
+                try:
+                    v = r[op]
+                except IndexError:
+                    continue
+                except Exception as e:
+                    return f"access_raised:{type(e).__name__}", f"ops {ops} step {k}: {e!r}"
+                return "out_of_range_index_served", f"ops {ops} step {k}: the wrapped dataset raises IndexError for {op}, the cache returned {v!r}"
             will_fail = FLAKY[0] and op not in cached and r.dataset.loads.count(op) == 0
             try:
                 v = r[op]
@@ -281,7 +296,7 @@ def sequential_check(ops, kind, tkind, R=1):
                 return f"access_raised:{type(e).__name__}", f"ops {ops} step {k}: {e!r}"
             if will_fail:
                 return "load_error_swallowed", f"ops {ops} step {k}: the wrapped dataset raised, the cache returned {v!r}"
-            if not same(v, apply_expected(tkind, payload(kind, op))):
+            if not same(v, apply_expected(tkind, payload(kind, op % 2))):
                 return "value_differs_from_wrapped_dataset", f"ops {ops} step {k}: {v!r}"
             loaded = r.dataset.loads[before[who]:]
             if any(len(x.dataset.loads) != b for i, (x, b) in enumerate(zip(readers, before)) if i != who and x is not None):
@@ -289,9 +304,14 @@ def sequential_check(ops, kind, tkind, R=1):
             if op in cached and loaded:
                 return "cached_sample_loaded_again", (f"ops {ops} step {k}: sample {op} was loaded again by reader {who} without a "
                                                       f"clear in between")
-            if op not in cached and loaded != [op]:
+            if op not in cached and op % 2 in cached_samples and loaded:
+                return "cached_sample_loaded_again|other_spelling_of_the_index", (
+                    f"ops {ops} step {k}: index {op} is sample {op % 2}, which was already loaded under its other spelling; reader "
+                    f"{who} loaded it again without a clear in between")
+            if op % 2 not in cached_samples and loaded != [op]:
                 return "uncached_sample_not_loaded_exactly_once", f"ops {ops} step {k}: reader {who} loads {loaded}"
             cached.add(op)
+            cached_samples.add(op % 2)
         return None, tuple(tuple(x.dataset.loads) if x is not None else loads_done[i] for i, x in enumerate(readers))
 
 
@@ -354,7 +374,7 @@ def seq_task(args):
     kind, tkind = args
     p = Partial()
     for R, maxlen in ((1, 4), (2, 4), (3, 3)):
-        alphabet = [(who, op) for who in range(R) for op in ((0, 1, "clear", "release") if R > 1 else (0, 1, "clear"))]
+        alphabet = [(who, op) for who in range(R) for op in ((0, 1, -1, "clear", "release") if R > 1 else (0, 1, -1, -2, 2, -3, "clear"))]
         for L in range(1, maxlen + 1):
             for ops in itertools.product(alphabet, repeat=L):
                 if R > 1 and len({w for w, _ in ops}) < 2:
@@ -369,7 +389,10 @@ def seq_task(args):
                         gone.add(w)
                 if not valid or (ops and ops[-1][1] == "release"):
                     continue  # a released reader cannot act; a release at the very end is unobservable
-                for flaky in ((False, True) if (R <= 2 and kind in ("int", "list")) else (False,)):
+                if R == 3 and any(o == -1 for _, o in ops):
+                    continue  # three readers: non-negative indices only (bounds the product)
+                for flaky in ((False, True) if (R <= 2 and kind in ("int", "list") and all(o in (0, 1, "clear", "release") for _, o in ops))
+                              else (False,)):
                     p.evaluations += 1
                     p.traces += 1
                     p.transitions += L
@@ -450,13 +473,13 @@ def run(run):
     run.assumptions += [
         "atomicity model: each Manager-dict proxy call is one atomic step; everything else in a reader is process-private",
         "the wrapped dataset returns fresh objects per load; readers are copies sharing only the dict (forked workers)",
-        "negative indices are not part of the explored alphabet",
+        "the wrapped harness dataset is list-like: negative indices count from the end, indices outside [-len, len) raise IndexError",
     ]
 
 
 def replay(case):
     if case.get("sequential"):
-        ops = tuple((int(o[0]), o[1] if o[1] in ("clear", "release") else int(o[1])) if isinstance(o, list) else (0, o if o == "clear" else int(o))
+        ops = tuple((int(o[0]), o[1] if o[1] in ("clear", "release") else int(o[1])) if isinstance(o, (list, tuple)) else (0, o if o == "clear" else int(o))
                     for o in case["ops"])
         FLAKY[0] = bool(case.get("flaky"))
         try:
